@@ -301,11 +301,12 @@ class Ops(object):
                                 return SView(src.length, lambda it3, i: self.getitem(it3, obj, self.seq_elem(it3, src, i)))
                             return SView(src.length, lambda it3, i: (self.seq_elem(it3, src, i), self.getitem(it3, obj, self.seq_elem(it3, src, i))))
                         raise OutOfSubset('mapping view over %r' % (ks,))
+                    from hv.vc.values import KeysList, ValuesList
                     if name == 'keys':
-                        return list(ks)
+                        return KeysList(ks)
                     if name == 'values':
-                        return [self.getitem(it2, obj, k) for k in ks]
-                    return [(k, self.getitem(it2, obj, k)) for k in ks]
+                        return ValuesList([self.getitem(it2, obj, k) for k in ks])
+                    return KeysList([(k, self.getitem(it2, obj, k)) for k in ks])
                 return Builtin('Mapping.' + name, view)
             if m is not None:
                 decs = [ast.unparse(d) for d in m.decorator_list]
@@ -744,6 +745,9 @@ class Ops(object):
             return self.negate(it, self.contains(it, b, a))
         if isinstance(a, SObj) or isinstance(b, SObj):
             return self.rich_compare(it, op, a, b)
+        r = self._compare_views(it, op, a, b)
+        if r is not NotImpl:
+            return r
         h = self.world.hooks.get('compare')
         if h is not None:
             r = h(it, op, a, b)
@@ -790,6 +794,28 @@ class Ops(object):
             return f(a, b)
         except TypeError as e:
             it.raise_('TypeError', str(e))
+
+    def _compare_views(self, it, op, a, b):
+        """keys()/items() views are set-like (== is set equality, also against set/frozenset, never equal to a list); values() views
+        compare by identity"""
+        from hv.vc.values import KeysList, ValuesList
+        dk = (KeysList, type({}.keys()), type({}.items()))
+        setlike = dk + (set, frozenset)
+        va, vb = isinstance(a, dk), isinstance(b, dk)
+        if isinstance(a, (ValuesList, type({}.values()))) or isinstance(b, (ValuesList, type({}.values()))):
+            if op in ('Eq', 'NotEq'):
+                return (a is b) == (op == 'Eq')
+            it.raise_('TypeError', 'ordering of values views')
+        if not (va or vb):
+            return NotImpl
+        if op not in ('Eq', 'NotEq'):
+            raise OutOfSubset('subset ordering of key views')
+        if not (isinstance(a, setlike) and isinstance(b, setlike)):
+            return op == 'NotEq'
+        la, lb = list(a), list(b)
+        if has_sym(la) or has_sym(lb):
+            raise OutOfSubset('set comparison of views with symbolic elements')
+        return (set(la) == set(lb)) == (op == 'Eq')
 
     def int_term(self, it, v):
         if isinstance(v, SBool):
